@@ -120,6 +120,11 @@ func c01Scenarios(tier string) []*Scenario {
 				}}
 				sc.Name = "reuse|after-an-abandoned-call|" + rpcName(sc.RPCs[0]) + " >> " + rpcName(sc.RPCs[1])
 				out = append(out, sc)
+				sc2 := *sc
+				sc2.RPCs = append([]RPC(nil), sc.RPCs...)
+				sc2.Opts += ",samemethod"
+				sc2.Name = "same-method|" + sc.Name
+				out = append(out, &sc2)
 			}
 		}
 		// a handler that answers before it has received everything and then goes on receiving (an echo loop)
@@ -162,6 +167,13 @@ func c01Scenarios(tier string) []*Scenario {
 			}}
 			sc.Name = "after-an-abandoned-stream|" + rpcName(sc.RPCs[0]) + " >> " + rpcName(sc.RPCs[1])
 			out = append(out, sc)
+			if kind == "bd" {
+				sc2 := *sc
+				sc2.RPCs = append([]RPC(nil), sc.RPCs...)
+				sc2.Opts += ",samemethod"
+				sc2.Name = "same-method|" + sc.Name
+				out = append(out, &sc2)
+			}
 		}
 		// two RPCs at once with the decoder as a scheduling point: whatever the library recycles between calls
 		// (buffers, pooled objects) must not be handed on while a receiver is still decoding from it
